@@ -128,6 +128,9 @@ func intern(t *Term) *Term {
 		fmt.Fprintf(&b, "w%d", t.Sort.W)
 	case "constarr":
 		b.WriteString(t.Sort.String())
+	case "strlit":
+		b.WriteString(t.Name)
+		b.WriteByte(0)
 	}
 	for _, a := range t.Bound {
 		fmt.Fprintf(&b, "b%d,", a.id)
@@ -457,6 +460,9 @@ func simplify(op string, sort *Sort, a []*Term) *Term {
 	case "store":
 		// store(a, i, select(a, i)) = a
 		if a[2].Op == "select" && a[2].Args[0] == a[0] && a[2].Args[1] == a[1] {
+			return a[0]
+		}
+		if a[0].Op == "constarr" && a[0].Args[0] == a[2] {
 			return a[0]
 		}
 		// store(store(a,i,v),i,w) = store(a,i,w)
